@@ -156,7 +156,9 @@ func (x *oracle) opDsort(op core.Op) bool {
 	x.graphProbes(set, ":dsort")
 	x.w.count("dsort." + shape)
 	x.w.last = fmt.Sprintf("dsort %s n=%d", shape, len(set))
+	defer x.runMapSeed()
 	for i := 0; i < R; i++ {
+		x.repMapSeed(i)
 		in := make(map[chainhash.Hash]*wire.MsgTx, len(set))
 		for _, m := range set {
 			in[m.TxHash()] = m
